@@ -141,6 +141,11 @@ func (e *env) tensorCall(f func() (T, error)) outcome {
 		return err
 	})
 	if st != "ok" {
+		// "an error (and no result)": the interface value that comes with an error must be nil — a typed nil pointer
+		// inside a non-nil interface passes every `== nil` test of the caller and panics on first use
+		if st == "err" && r != nil {
+			return fail("err-with-result")
+		}
 		return fail(st)
 	}
 	return outcome{st: "ok", bind: &val{k: kTensor, t: r}}
@@ -188,6 +193,9 @@ func (e *env) randTensorCall(k int, f func() (T, error)) outcome {
 		return err
 	})
 	if st != "ok" {
+		if st == "err" && r != nil {
+			return fail("err-with-result")
+		}
 		return fail(st)
 	}
 	return outcome{st: "ok", payload: payload, bind: &val{k: kTensor, t: r}}
